@@ -482,7 +482,13 @@ def _merge_env(s):
     ]
 
 
-fn(ORSet, "merge", args={"other": Ref(ORSet)},
+# ORSet.__eq__ compares the LIVE tag sets only (its own comment: "Compare only non-empty tag sets"; tombstones are not
+# part of it).  Not called by merge on the pinned tree; declared so that a merge that consults it is verified against
+# what it really computes instead of ending out of reach (two dict comprehensions).
+stub_of(ORSet, "__eq__", returns=Bool, modifies=[], ensures=[
+    ("equal-iff-same-live-tags", lambda s: iff(s.result, forall(Int, lambda e: s_eq(tags(s.self._entries, e), tags(s.other._entries, e)))))])
+
+fn(ORSet, "merge", args={"other": Ref(ORSet)}, uses=[(ORSet, "__eq__")],
    requires=[lambda s: _merge_env(s)[0], lambda s: _merge_env(s)[1], lambda s: _merge_env(s)[2]],
    ensures=[
     # spec join on the view: live tags of either side that neither side has observed removed
